@@ -219,6 +219,98 @@ fn run_alpha<A: Alphabet>(alpha: &'static str, ctx: &mut Ctx, rep: &mut Report, 
             return;
         }
     }
+    // ---- long texts: block-wise code paths of Display / encode --------------------------------
+    rep.space(
+        "long",
+        "product: alphabet x 6 pipelines + API arms x lengths {1023,1024,1025,2047,2048,2049,3000,4097,8200} x {valid text, one invalid byte at L-1 / L/2 / 1024 / 1025}; \
+         oracle: letter table incl. the Display round-trip of the WHOLE text (block-wise formatting paths) and the first offending character",
+    );
+    for &len in &[1023usize, 1024, 1025, 2047, 2048, 2049, 3000, 4097, 8200] {
+        let idx = *base;
+        *base += 1;
+        if !ctx.mine(idx) {
+            continue;
+        }
+        let bg = background(lt, len, 1);
+        let mut texts = vec![bg.clone()];
+        for &p in &[len - 1, len / 2, 1024, 1025] {
+            if p < len {
+                let mut t = bg.clone();
+                t[p] = b'z';
+                texts.push(t);
+            }
+        }
+        for text in &texts {
+            for cfg in cfgs::ALL_ECFGS {
+                rep.eval_distinct(true);
+                if let Err((sig, msg)) = check_one::<A>(cfg, text) {
+                    rep.violation(format!("C05 {} {} long {}", alpha, cfg.name(), sig), msg, || case_json(alpha, cfg.name(), text));
+                }
+            }
+            for arm in cfgs::FORCED {
+                rep.eval_distinct(true);
+                if let Err((sig, msg)) = check_api::<A>(arm, text) {
+                    rep.violation(format!("C05 {} api[{}] long {}", alpha, cfgs::arm_name(arm), sig), msg, || {
+                        case_json(alpha, &format!("api[{}]", cfgs::arm_name(arm)), text)
+                    });
+                }
+            }
+        }
+    }
+    // ---- multi-byte UTF-8 text through from_str ------------------------------------------------
+    rep.space(
+        "utf8",
+        "product: alphabet x API arms (EncodedSequence::encode, str::parse / from_str) + 6 pipelines x every length 3..=40 x every position q of a 2-byte UTF-8 character ('\u{e9}' = C3 A9), a 3-byte one and a 4-byte one, \
+         alone or preceded by an invalid ASCII byte at every p<q ('.', 'a', NUL); oracle: byte-wise letter table - the error names the FIRST offending byte (the invalid ASCII byte when there is one, else the lead byte of the multi-byte character)",
+    );
+    let multis: [&[u8]; 3] = ["\u{e9}".as_bytes(), "\u{20ac}".as_bytes(), "\u{1F600}".as_bytes()];
+    for len in 3..=40usize {
+        let idx = *base;
+        *base += 1;
+        if !ctx.mine(idx) {
+            continue;
+        }
+        let bg = background(lt, len, 0);
+        for mb in multis {
+            for q in 0..=len {
+                // the multi-byte character inserted before position q
+                let mut t: Vec<u8> = bg[..q].to_vec();
+                t.extend_from_slice(mb);
+                t.extend_from_slice(&bg[q..]);
+                let mut variants = vec![t.clone()];
+                for p in 0..q {
+                    for &bad in &[b'.', b'a', 0u8] {
+                        let mut u = t.clone();
+                        u[p] = bad;
+                        variants.push(u);
+                    }
+                }
+                for text in &variants {
+                    debug_assert!(std::str::from_utf8(text).is_ok());
+                    for arm in cfgs::FORCED {
+                        rep.eval_distinct(true);
+                        if let Err((sig, msg)) = check_api::<A>(arm, text) {
+                            rep.violation(format!("C05 {} api[{}] utf8 {}", alpha, cfgs::arm_name(arm), sig), msg, || {
+                                case_json(alpha, &format!("api[{}]", cfgs::arm_name(arm)), text)
+                            });
+                        }
+                    }
+                    if q % 5 == 0 {
+                        for cfg in cfgs::ALL_ECFGS {
+                            rep.eval_distinct(true);
+                            if let Err((sig, msg)) = check_one::<A>(cfg, text) {
+                                rep.violation(format!("C05 {} {} utf8 {}", alpha, cfg.name(), sig), msg, || case_json(alpha, cfg.name(), text));
+                            }
+                        }
+                    }
+                }
+            }
+        }
+        if ctx.out_of_time() {
+            rep.cap(format!("utf8/{}: wall-clock cap at L={}", alpha, len));
+            return;
+        }
+    }
 }
 
 pub fn run(ctx: &mut Ctx, rep: &mut Report) {
